@@ -50,11 +50,11 @@ func c07Judge(t vt.TB, rec *stats.Recorder, c *gcmCase, open func(nonce, ct, aad
 	}
 }
 
-func TestVerif_C07_Open(t *testing.T) {
+// verifProp_C07_Open builds the property (shared by the rapid test and the native fuzz target).
+func verifProp_C07_Open() func(*rapid.T) {
 	rec := stats.Get("C07", "open")
 	rec.Rule("rapid: a sealed message from the C06 generator (all length classes, nonce lengths, tag sizes, counter wrap), then mutations, each opened from a fresh copy of the ciphertext: none; flip one drawn bit of ciphertext body / tag / nonce / aad (several per message; every tag bit for one message in eight); drop or append 1..20 bytes at either end; truncate the tag by 1..4 bytes under the same AEAD; swap two blocks; strings shorter than the tag (0..tag-1 bytes); extend aad. Oracle: unchanged -> (plaintext,nil); otherwise err != nil and nil slice, no panic; verdict cross-checked with gcmref.Open. Every evaluation (message x mutation) is one case; non-trivial: any mutated case, or authentic with a tail / wide kernel / non-default tag or nonce; distinct by (message, mutation).")
-	t.Cleanup(stats.FlushAll)
-	rapid.Check(t, func(t *rapid.T) {
+	return func(t *rapid.T) {
 		c := drawGCMCase(t)
 		a, err := c.aead()
 		if err == errNoGcmAble {
@@ -130,5 +130,15 @@ func TestVerif_C07_Open(t *testing.T) {
 			s["mutations"] = fmt.Sprint(len(muts))
 			rec.Sample(c.How, s)
 		}
-	})
+	}
+}
+
+func TestVerif_C07_Open(t *testing.T) {
+	t.Cleanup(stats.FlushAll)
+	rapid.Check(t, verifProp_C07_Open())
+}
+
+// FuzzVerif_C07_Open drives the same property with Go's coverage-guided fuzzer (thorough tier).
+func FuzzVerif_C07_Open(f *testing.F) {
+	f.Fuzz(rapid.MakeFuzz(verifProp_C07_Open()))
 }
